@@ -51,6 +51,18 @@ CHECKS["C16"] = dict(
          "text-level numerals. SDK app id case bounded to the 16 adjacent values (the connection hashes it).",
     design="3/C16")
 
+CHECKS["C04"] = dict(
+    engine="symx",
+    technique="SMT (z3 LIA/NIA): symbolic execution of the real Executor on integer proxies vs. an independent reference interpreter",
+    text="The real Executor.execute_subroutine runs from a symbolic initial state (register/array contents and immediates are z3 "
+         "integers; operand aliasing, definedness, array lengths, unit-module occupancy and branch targets are forked exhaustively) "
+         "and z3 decides on every path that registers, arrays, shared memory, unit module, fault/no-fault and the faulting line equal "
+         "the reference semantics. (a) every core classical instruction from an arbitrary state; (b) all 2-slot programs over 22 forms "
+         "with arbitrary jump targets, and two subroutines back to back. Bounded: step bound 12, program length 2 (thorough 3-4).",
+    note="Trusted: z3; vf/refsem.py (independent reference, DESIGN appendix B); harness Executor subclass that concretises index-like "
+         "values before list indexing. Behaviour the statement does not name (negative index, undefined compare) is assumed away.",
+    design="3/C04")
+
 NOT_YET = "check not built yet in this revision (work in progress; see DESIGN.md section 3 for the planned solver-based check)"
 NOT_APPLICABLE = {}
 
